@@ -199,6 +199,9 @@ func (h *robustHarness) Gen(r *Rand, tier string, clean bool) any {
 	if c.Cancel == nil && r.Chance(0.12) {
 		// a driver call that is slow (simulated seconds), not failing: the statement simply takes longer
 		c.Cancel = &FaultSpec{Call: r.Intn(8), Mode: []string{"slow", "slowmid"}[r.Intn(2)], J: r.Intn(6)}
+		if r.Bool() {
+			c.Cancel.Mode, c.Cancel.W = "slow", 1+r.Intn(3) // one of the first writes of the statement is the slow call
+		}
 	}
 	if r.Chance(0.2) {
 		c.Graphs = []GraphData{{Name: "?g0"}, {Name: "?g1"}} // empty store content
